@@ -7,6 +7,8 @@ mod evolution;
 mod features;
 pub mod serializer;
 mod state;
+#[cfg(desert_verif)]
+pub mod verif;
 
 use bytes::{Bytes, BytesMut};
 use std::fmt::{Display, Formatter};
